@@ -48,4 +48,12 @@ def main(argv=None):
 
 
 if __name__ == "__main__":
-    sys.exit(main())
+    try:
+        code = main()
+    except SystemExit:
+        raise
+    except BaseException:  # noqa - a crash of the machinery is a harness failure (3), never a verdict
+        import traceback
+        traceback.print_exc()
+        code = 3
+    sys.exit(code)
